@@ -29,7 +29,7 @@ func pureExpr(info *types.Info, e ast.Expr) bool {
 				return true
 			}
 			f := calleeOf(info, c)
-			if f == nil || !(pureMethods[f.Name()] || f.Name() == "String" || f.Name() == "Len") {
+			if f == nil || !(pureMethods[f.Name()] || fname(f) == "String" || fname(f) == "Len") {
 				ok = false
 			}
 		}
@@ -575,7 +575,7 @@ func runSiblingChildCons(p *Prog, r *Report) {
 				return true
 			}
 			f := calleeOf(info, call)
-			if f == nil || f.Name() != "newExpression" || len(call.Args) < 2 {
+			if f == nil || fname(f) != "newExpression" || len(call.Args) < 2 {
 				return true
 			}
 			ex, co := call.Args[len(call.Args)-2], call.Args[len(call.Args)-1]
@@ -1170,7 +1170,7 @@ func runCtxLeak(p *Prog, r *Report) {
 			}
 			for i, rhs := range as.Rhs {
 				if c, ok := ast.Unparen(rhs).(*ast.CallExpr); ok {
-					if f := calleeOf(info, c); f != nil && f.Name() == "WithActiveSelfRefs" {
+					if f := calleeOf(info, c); f != nil && fname(f) == "WithActiveSelfRefs" {
 						if id, ok := ast.Unparen(as.Lhs[i]).(*ast.Ident); ok {
 							enriched[info.ObjectOf(id)] = append(enriched[info.ObjectOf(id)], as)
 						}
@@ -1232,7 +1232,7 @@ func positionExclusiveSites(fn *Func, a, b ast.Node) bool {
 			if !ok {
 				continue
 			}
-			if f := calleeOf(info, c); f == nil || f.Name() != "ContainsPos" {
+			if f := calleeOf(info, c); f == nil || fname(f) != "ContainsPos" {
 				continue
 			}
 			sel, ok := ast.Unparen(c.Fun).(*ast.SelectorExpr)
